@@ -27,7 +27,7 @@ CHECKS = {
    design="DESIGN.md §6 C22"),
  "C06": dict(
    text="Bounded symbolic model checking of crash and fault points of a bundle upload on the real code (implUpload/uploadBundle with the real cafs writer, then the real observers ListBundles, GetLatestBundle, DownloadMetadata (implPublishMetadata), implPublish, Label.DownloadDescriptor): in a repository holding a committed bundle with a label (both produced by the real code), a second upload of two files is interrupted at every one of its mutating store calls (metadata, label and blob stores together), with the call landing or not before the process dies (fail-stop stores), or hit by a transient fault on that one call - afterwards every previously committed metadata object, label and blob is byte-identical, listing works and shows the old bundle, the new bundle is listed / resolved as latest / fetchable iff its descriptor and all its file lists were written, the descriptor never exists without all file lists, the old bundle still downloads with its content, the label still resolves, every write under bundles/ is create-if-absent, an upload hit by a fault reports failure, and a retried upload succeeds and becomes the latest.",
-   note="Trusted: go/ssa, gosmt interpreter (natively cross-validated), fail-stop crash model with atomic object writes, BLAKE2b as injective UF, yaml.v2 as round-tripping opaque documents, ksuid ids increasing across seconds, one cooperative schedule of the upload goroutines. Outside: crash points of diamond commits (decided under C12) and of label writes (a single object write), partial object writes, explicit delete/squash/delete-files.",
+   note="Trusted: go/ssa, gosmt interpreter (natively cross-validated), fail-stop crash model with atomic object writes, BLAKE2b as injective UF, yaml.v2 as round-tripping opaque documents, ksuid ids increasing across seconds, one cooperative schedule of the upload goroutines. Also a diamond commit (real merge and index upload) interrupted the same way at each of its mutating store calls, with the same observers. Outside: crash points of label writes (a single object write), partial object writes, explicit delete/squash/delete-files.",
    design="DESIGN.md §6 C06"),
  "C07": dict(
    text="Bounded symbolic model checking of the real listing pipelines end to end (ListRepos, ListBundles, ListBundlesApply, ListLabels, ListLabelsApply, ListDiamonds, ListSplits with fetchKeys, basenameKeyFilter, mergeKeys, distributeKeys, fetch*Batch, get*Async, the descriptor downloads and sort.Sort on the model slices) over an in-memory object store: repositories {a, a-b, ab, b} in every combination; in repo r (next to r2, whose name extends it) three bundles each absent / committed / leftover of an interrupted upload, three labels in every combination, two diamonds each absent / running / running+done, the first with two splits (one named split-2) each absent / running / running+done and each with two split file lists - for every page size from 1 to the number of keys + 1 and list concurrency 1..2 the result is exactly the existing objects of that kind and repository, each once, a bundle without descriptor is skipped, diamonds and splits come back in their latest state, bundles in key order. Known findings C07-F2, C07-F3 (order of labels / prefix-named repositories).",
@@ -49,6 +49,10 @@ CHECKS = {
    text="Bounded symbolic model checking of the real diamond merge (Diamond.mergeSplits with its merger goroutine, fileIndex.Download/unpack/downloadAll/downloadIndex, mergeEntryToFilePacked, GenerateConflictPath/GenerateCheckpointPath, go-immutable-radix from source) against a reference written from the statement: 2 splits x 2 paths with symbolic presence, symbolic 1-byte content hashes and symbolic distinct upload seconds, and 3 splits x 1 path (split k uploaded at second k), in all 4 conflict modes and for every arrival order of the split index files - the main tree holds exactly the uploaded paths with the latest version of each, conflict/checkpoint mode files every other distinct version under .conflicts|.checkpoints/<uploading split>/<path> with that split's content and nothing else, ignore mode adds nothing, forbid mode fails iff two splits disagree on a path, and the HasConflicts/HasCheckpoints flags match. Thorough adds 3 splits x 2 paths with one index file per (split, path). Known finding C11-F1.",
    note="Trusted: go/ssa, gosmt interpreter (natively cross-validated), cooperative goroutine/channel model with file-list download concurrency 1 (arrival order = the solver-chosen permutation), yaml.v2 as round-tripping opaque documents, in-memory metadata store. Outside: more than 3 splits, equal upload times, the single-split == plain upload clause, fileIndex.pack's time stamping, implCommit around the merge.",
    design="DESIGN.md §6 C11"),
+ "C12": dict(
+   text="Bounded symbolic model checking of the diamond protocol on the real code, driven as the CLI drives it (CreateDiamond; NewSplit + CreateSplit + Split.Upload with the real cafs writer; GetDiamond + NewDiamond(clone) + Commit with the real merge and index upload; Cancel): every sequential program of 3 (thorough 4) operations over {add split s1 (files v1), add s1 again (files v2), add split s2, commit, cancel} is checked step by step against the state machine of the statement - commits, cancels and new splits are refused once the diamond is done or canceled, a completed split cannot be rerun, commit without a completed split is refused, a refused operation writes nothing, every diamond / split / bundle metadata object is written create-if-absent, the diamond yields a bundle iff a commit succeeded, exactly one, holding exactly the files of the completed splits (with the conflict entry for the path both uploaded) and the diamond descriptor records it; a split upload or a commit dying at every one of its mutating store calls (landed or not, fail-stop stores) followed by a retry - an interrupted split can be rerun and the bundle then holds the content of the run recorded as completing it, a completed one cannot, at most one bundle results (known finding C12-F1 for the window between bundle.yaml and diamond-done); two concurrent terminal operations (commit/commit, commit/cancel, cancel/cancel) under every interleaving with a preemption point before each mutating metadata store call and at most 2 (thorough 3) context switches - at most one cancel succeeds, a successful terminal operation leaves the diamond terminated (known findings C12-F1, C12-F2 for the check-then-write windows).",
+   note="Trusted: go/ssa, gosmt interpreter (natively cross-validated; interleaving counterexamples replay under a native baton that follows the same schedule), BLAKE2b as injective UF, yaml.v2 as round-tripping opaque documents, ksuid ids fresh and increasing across seconds, fail-stop crash model with atomic object writes. Outside: more than 2 splits / 4 operations, concurrent split uploads (their blob writes run in worker goroutines), preemption between two reads, more than 3 context switches.",
+   design="DESIGN.md §6 C12"),
  "C13": dict(
    text="Bounded symbolic model checking of the purge safety kernels on the real code: checkAndDeleteKey as one step from an arbitrary key state (indexed or not, KV error, blob update time vs index time symbolic, 0..3 transient GetAttr failures, dry-run) - a blob is deleted only if unindexed and its update time was actually read and is not after the index time; the uploader's final loop + chunkUploader + dbReader with a chunk write that fails after consuming any number of bytes and is retried - every key marked uploaded is in a stored chunk whenever the uploader reports success; bundleKeys from a KV pre-state holding a root with or without its leaves - every key of a scanned entry ends up indexed (known finding C13-F3).",
    note="Trusted: go/ssa, gosmt interpreter (natively cross-validated), in-memory store/KV models, backoff.Retry = at most 3 attempts, yaml.v2 as round-tripping opaque documents, tickers never fire. Outside: the PurgeBuildReverseIndex/PurgeDeleteUnused drivers as a whole (errgroup fan-out over repos, monitors), pebble/badger themselves, uploads racing with the two phases, list-page faults.",
